@@ -8,7 +8,8 @@ export GOPATH=${GOPATH:-/root/go} GOCACHE=${GOCACHE:-/root/.cache/go-build}
 H=$(mktemp -d /tmp/verif-baseline-home.XXXXXX)
 trap 'rm -rf "$H"' EXIT
 printf '[user]\n\tname = Baseline\n\temail = baseline@example.com\n' > "$H/.gitconfig"
-export HOME=$H XDG_CONFIG_HOME=$H/xdg GIT_CONFIG_NOSYSTEM=1
+mkdir -p "$H/tmp"
+export HOME=$H XDG_CONFIG_HOME=$H/xdg GIT_CONFIG_NOSYSTEM=1 TMPDIR=$H/tmp
 cd /repo && go test -json -vet=off -count=1 -timeout 25m ./... > "${BASELINE_JSON:-/dev/null}" 2>/dev/null
 rc=$?
 if [ -n "${BASELINE_JSON:-}" ]; then
